@@ -70,11 +70,22 @@ class Scheduler:
         self.choices = []
         self.param = param
         self.rot = 0
+        self.nested = None          # a sub-replay (repeat-with-same-schedule checks)
+        self.nested_record = None   # choices made since the caller reset it
 
     def choose(self, runnable, cur):
         n = len(runnable)
         if n == 1:
             return 0
+        if self.nested is not None:
+            c = self.nested.pop(0) if self.nested else 0
+            return c if 0 <= c < n else 0
+        c = self._choose(runnable, cur, n)
+        if self.nested_record is not None:
+            self.nested_record.append(c)
+        return c
+
+    def _choose(self, runnable, cur, n):
         if self.replay is not None:
             if self.rpos < len(self.replay):
                 c = self.replay[self.rpos]
